@@ -124,17 +124,19 @@ def check_case(case, ctx):
         desc = (f'matrix {M}, LM {lm}, scale {scale}, bonus {bonus}, k {k}, eos {eos}, init {init}: '
                 f'hypotheses {[(t, round(v, 4), round(l, 4)) for t, v, l in hyps]}')
         # (0) history: the same decoder object decodes another line first; this line's result must not depend on it
-        if len(rows) <= 2 and ei == 0:
+        if len(rows) <= 2:
             d2 = CTCPrefixLogRawNumpyDecoder(LETTERS, k, lm=w, lm_scale=scale, insertion_bonus=bonus)
             with np.errstate(divide='ignore'):
                 other = np.log(np.asarray([ROWS[(i + 2) % len(ROWS)] for i in rows] + [ROWS[0]], dtype=float))
+                empty = np.log(np.asarray([[0.0, 0.0, 1.0]] * 2))           # a line on which only the blank is possible
             d2(other.copy(), model_eos=eos, return_h=True, init_h=(None if init == 'default' else h0))
+            d2(empty.copy(), model_eos=eos, return_h=True, init_h=(None if init == 'default' else h0))
             b2, _ = d2(lp.copy(), model_eos=eos, return_h=True, init_h=(None if init == 'default' else h0))
-            ctx.executed(2)
+            ctx.executed(3)
             h2 = [(h.transcript, float(h.vis_sc), float(h.lm_sc)) for h in b2]
             if sorted(h2) != sorted(hyps):
                 ctx.violation('lm-score-is-the-models-own', f'{K}/depends-on-previously-decoded-line',
-                              f'{desc}; the same decoder gives {[(t, round(v, 4), round(l, 4)) for t, v, l in h2]} after decoding another line first', sub)
+                              f'{desc}; the same decoder gives {[(t, round(v, 4), round(l, 4)) for t, v, l in h2]} after decoding two other lines (one of them blank-only) first', sub)
                 continue
             ctx.tag('decoder-reused-for-another-line')
         # (1) the LM score is the LM's own score, whatever route the search took
